@@ -179,13 +179,27 @@ def g_schema_set(r):
             ns["enums"].append(g_name(r, used) + "Enum")
         ns["groups"].append(g_name(r, used) + "Grp")
 
+    # half of the sets are layered (namespace i only refers to namespaces <= i): no circular imports between modules,
+    # so that the filenames / namespaces styles reach import aliasing instead of "Circular Dependencies Found"
+    layered = r.random() < 0.5
+
     def ref(ns_from, kind):
-        ns_to = r.choice(nss)
+        pool = nss[:nss.index(ns_from) + 1] if layered else nss
+        ns_to = r.choice(pool)
+        if layered and ns_to is ns_from and kind == "types":
+            # inside a layered namespace refer backwards only (no cycles at all)
+            k = ref.cursor.get(id(ns_from), 0)
+            cands = ns_from["types"][:k] or None
+            if cands is None:
+                return "xs:string"
+            return ns_to["pfx"] + ":" + r.choice(cands)
         return ns_to["pfx"] + ":" + r.choice(ns_to[kind])
+
+    ref.cursor = {}
 
     files = {}
     for ns in nss:
-        others = [o for o in nss if o is not ns]
+        others = [o for o in nss if o is not ns and (not layered or nss.index(o) < nss.index(ns))]
         out = ['<xs:schema xmlns:xs="%s" targetNamespace="%s" elementFormDefault="qualified" %s>' % (
             XS, ns["uri"], " ".join('xmlns:%s="%s"' % (o["pfx"], o["uri"]) for o in nss))]
         for o in others:
@@ -203,7 +217,8 @@ def g_schema_set(r):
                    '<xs:element name="gy" type="%s"/></xs:sequence></xs:group>' % (g, ref(ns, "types")))
         head = g_name(r, used) + "Head"
         out.append('<xs:element name="%s" type="%s:%s" abstract="true"/>' % (head, ns["pfx"], ns["types"][0]))
-        for t in ns["types"]:
+        for ti, t in enumerate(ns["types"]):
+            ref.cursor[id(ns)] = ti
             body = []
             for k in range(r.randint(1, 4)):
                 kind = r.random()
